@@ -99,8 +99,8 @@ impl Block {
         ensures
             (r matches Ok(v) ==> severity_spec(*self) == Ok::<BlockSeverity, anyhow::Error>(v)), // [V9.post.severity]
             (r is Err <==> severity_spec(*self) is Err), // [V9.post.bad_severity_is_err]
-//@dropcall rule=E1 name=context
-//@closure rule=E12 find=<<|s|>> params=<<|s: &String|>> ret=<<res: anyhow::Result<BlockSeverity>>>
+//@dropcall rule=E1 name=context optional=1
+//@closure rule=E12 find=<<|s|>> optional=1 params=<<|s: &String|>> ret=<<res: anyhow::Result<BlockSeverity>>>
             ensures
                 (res matches Ok(v) ==> severity_of_str(s@) == Some(v)),
                 (res is Err <==> severity_of_str(s@) is None),
